@@ -1023,9 +1023,50 @@ func silence() {
 	log.SetLevel(log.ERROR)
 }
 
+// gatewayAtPoolEdge: "dynamic addresses never coincide with the gateway" also
+// for a configuration whose gateway is the first or the last address of the
+// pool: either the configuration is refused, or no client is ever offered the
+// gateway address while the whole pool is handed out.
+func gatewayAtPoolEdge(c *lib.Ctx) {
+	for _, gw := range []netip.Addr{poolStart, poolEnd} {
+		dir, err := os.MkdirTemp(c.TmpDir, "c10gw-")
+		if err != nil {
+			c.EngineError(err.Error())
+			return
+		}
+		c.Count("evals", 1)
+		srv, err := dhcpd.VerifC10New(dhcpd.VerifC10Conf{DataDir: dir, Gateway: gw, Mask: mask, RangeStart: poolStart, RangeEnd: poolEnd, Self: selfIP, LeaseSec: uint32(leaseDur / time.Second)})
+		if err != nil {
+			c.Count("gateway_at_pool_edge_refused", 1)
+			_ = os.RemoveAll(dir)
+			continue
+		}
+		for m := 1; m <= 5; m++ {
+			rc, resp, herr := srv.Handle(buildReq(op{Kind: "disc", MAC: m}))
+			if herr != nil || rc < 0 || resp == nil {
+				continue
+			}
+			y, _ := netip.AddrFromSlice(resp.YourIPAddr.To4())
+			if resp.MessageType() == dhcpv4.MessageTypeOffer && y == gw {
+				c.Violation("gateway-offered-to-client:gateway-at-pool-edge", fmt.Sprintf("configuration with gateway %s = %s of the pool %s-%s is accepted and client %d is offered the gateway address", gw, map[bool]string{true: "first address", false: "last address"}[gw == poolStart], poolStart, poolEnd, m),
+					map[string]any{"check": "gateway-at-pool-edge", "gateway": gw.String()})
+				break
+			}
+			if y.IsValid() {
+				_, _, _ = srv.Handle(buildReq(op{Kind: "req-sel", MAC: m, IP: y.String()}))
+			}
+		}
+		c.Count("gateway_at_pool_edge_accepted", 1)
+		_ = os.RemoveAll(dir)
+	}
+}
+
 func run(c *lib.Ctx) {
 	_ = os.Setenv("VERIF_C10_TMP", c.TmpDir)
 	silence()
+	if c.ShardI == 0 {
+		gatewayAtPoolEdge(c)
+	}
 	if pf := os.Getenv("VERIF_C10_PROF"); pf != "" && c.ShardI == 0 {
 		f, _ := os.Create(pf)
 		_ = pprof.StartCPUProfile(f)
@@ -1057,6 +1098,14 @@ func run(c *lib.Ctx) {
 func replay(c *lib.Ctx, raw json.RawMessage) string {
 	_ = os.Setenv("VERIF_C10_TMP", c.TmpDir)
 	silence()
+	if strings.Contains(string(raw), "gateway-at-pool-edge") {
+		before := c.NumViolationKeys()
+		gatewayAtPoolEdge(c)
+		if c.NumViolationKeys() > before {
+			return "violation reproduced: a client is offered the gateway address"
+		}
+		return ""
+	}
 	var hist []op
 	if err := json.Unmarshal(raw, &hist); err != nil {
 		return err.Error()
